@@ -34,10 +34,23 @@ CONSTANTS
   SwapAmounts = {}
   MaxRej = 2
   Sample = FALSE
+  InitIbc = 0
+  DeployExtra = {}
+  HookVariants = {}
+  UpgradeTo = {}
   MathMaxIn = 0
   MathScales = {0}
 VIEW View
+INVARIANTS
+  Inv_X10_ContractUnique
+  Inv_X12_Token_Accepted_ModF12
+  Inv_X12_Token_RoundTrip
 PROPERTIES
+  Act_X09_SupplyLedger
+  Act_X09_FeeQuote
+  Act_X10_DeployBinds
+  Act_X10_HookIgnores
+  Act_X10_Upgrade
   Act_C09_IdentityGh
   Act_C09_Identity
   Act_C09_Authority
